@@ -196,10 +196,11 @@ def task(i, fault, how, arg, sleep):
         _die_when_manager_busy(how)
     if fault == "slow_result":
         return SlowToLoad((expected(i), os.getpid()))
+    if fault == "mid_task":
+        time.sleep(sleep / 2.0)      # dies half-way: the other tasks of the call are still running
+        die(how)
     if sleep:
         time.sleep(sleep)
-    if fault == "mid_task":
-        die(how)
     if fault == "mid_send":
         _arm_result_writer(False)
     if fault == "after_send":
